@@ -38,7 +38,7 @@ def o_groups(rows):
 def rows_of(a):
     a = np.asarray(a)
     if a.ndim == 1:
-        return [x.item() for x in a]
+        return [x.item() if hasattr(x, "item") else int(x) for x in a]
     return [tuple(x.item() for x in r) for r in a]
 
 
@@ -138,12 +138,12 @@ def check_rows(t, data, case):
             t.violation(f"group_rows(require_count={rc}): groups differ from element-wise comparison [{cls}]", c, {"got": got, "want": exp})
 
 
-def check_1d(t, data, case, full=True):
+def check_1d(t, data, case, full=True, dtype=np.int64):
     g = _g()
     vals = rows_of(data)
     n = len(vals)
     want = o_groups(vals)
-    arr = np.asarray(data, dtype=np.int64)
+    arr = np.asarray(data, dtype=dtype)
     # group
     for mn, mx in itertools.product((None, 1, 2, 3), repeat=2):
         c = dict(case, min_len=mn, max_len=mx)
@@ -178,8 +178,8 @@ def check_1d(t, data, case, full=True):
             inv = np.asarray(res[k]).tolist()
             if len(inv) != n or any(u[inv[i]] != vals[i] for i in range(n)):
                 t.violation("unique_ordered: unique[inverse] != data", c, {"got": inv})
-    # unique_bincount (non-negative only)
-    if min(vals) >= 0:
+    # unique_bincount (non-negative, and small: it allocates max(values) counters)
+    if min(vals) >= 0 and max(vals) < 10**6:
         for ml, rv, rc in itertools.product((0, 1, 5), (False, True), (False, True)):
             c = dict(case, minlength=ml, return_inverse=rv, return_counts=rc)
             ok, res = _call(t, "unique_bincount", c, lambda: g.unique_bincount(arr, minlength=ml, return_inverse=rv, return_counts=rc))
@@ -467,6 +467,25 @@ def _w_float(task):
     return t
 
 
+def _w_1d_extremes(task):
+    """Every sequence of length <= 3 over the extreme values of a signed integer dtype: differences between
+    neighbours reach and exceed half the range of the dtype (where subtraction wraps around)."""
+    dtname = task
+    t = harness.Tally()
+    dt = np.dtype(dtname)
+    ii = np.iinfo(dt)
+    alpha = [ii.min, ii.min // 2, -1, 0, 1, ii.max // 2 + 1, ii.max]
+    for n in (1, 2, 3):
+        for seq in itertools.product(alpha, repeat=n):
+            case = {"family": "1d_extremes", "class": f"{dtname} extremes, length {n}", "dtype": dtname, "data": [int(x) for x in seq]}
+            t.evaluations += 1
+            if len(set(seq)) < len(seq) or n > 1:
+                t.nontrivial_count += 1
+            check_1d(t, np.array(seq, dtype=object), case, dtype=dt)
+    t.sample({"family": "1d_extremes", "dtype": dtname, "data": [int(alpha[0]), 0]}, limit=1)
+    return t
+
+
 def _w_edge(_):
     """Empty and single-row inputs."""
     t = harness.Tally()
@@ -529,6 +548,8 @@ def tasks_for(tier):
         for sl in range(3):
             tasks.append((_w_float, (d, sl)))
     tasks.append((_w_edge, None))
+    for dtname in ("int8", "int16", "int32", "int64"):
+        tasks.append((_w_1d_extremes, dtname))
     return tasks
 
 
@@ -546,6 +567,8 @@ def replay(case):
         check_value_in_row(t, d, {"family": "rows", "data": case["data"]})
     elif fam == "1d":
         check_1d(t, np.array(case["data"], dtype=np.int64), {"family": "1d", "data": case["data"]})
+    elif fam == "1d_extremes":
+        check_1d(t, np.array(case["data"], dtype=object), {k: case[k] for k in ("family", "class", "dtype", "data")}, dtype=np.dtype(case["dtype"]))
     elif fam == "boolean_rows":
         check_boolean_rows(t, np.array(case["a"], dtype=np.int64), np.array(case["b"], dtype=np.int64), {"family": "boolean_rows", "a": case["a"], "b": case["b"]})
     elif fam == "magnitude":
